@@ -12,3 +12,15 @@ void h_K_img_geometry_from_header(void)
 void h_K_img_geometry_to_header(void) { K_img_geometry_to_header(nondet_int() != 0); }
 #include "K_hdr_stream_format.c"
 void h_K_hdr_stream_format(void) { K_hdr_stream_format(); }
+#include "K_hdrw_patient_position.c"
+void h_K_hdrw_patient_position(void) { g_fixed = nondet_bool(); g_prec = nondet_int(); g_base = nondet_int(); g_vals = 0; g_f0 = g_fixed; g_p0 = g_prec; g_b0 = g_base; K_hdrw_patient_position(); }
+#include "K_hdrw_time_frame_definitions.c"
+void h_K_hdrw_time_frame_definitions(void) { g_fixed = nondet_bool(); g_prec = nondet_int(); g_base = nondet_int(); g_vals = 0; g_f0 = g_fixed; g_p0 = g_prec; g_b0 = g_base; K_hdrw_time_frame_definitions(); }
+#include "K_hdrw_energy_windows.c"
+void h_K_hdrw_energy_windows(void) { g_fixed = nondet_bool(); g_prec = nondet_int(); g_base = nondet_int(); g_vals = 0; g_f0 = g_fixed; g_p0 = g_prec; g_b0 = g_base; K_hdrw_energy_windows(); }
+#include "K_hdrw_image_data_descriptions.c"
+void h_K_hdrw_image_data_descriptions(void) { g_fixed = nondet_bool(); g_prec = nondet_int(); g_base = nondet_int(); g_vals = 0; g_f0 = g_fixed; g_p0 = g_prec; g_b0 = g_base; K_hdrw_image_data_descriptions(); }
+#include "K_hdrw_modality.c"
+void h_K_hdrw_modality(void) { g_fixed = nondet_bool(); g_prec = nondet_int(); g_base = nondet_int(); g_vals = 0; g_f0 = g_fixed; g_p0 = g_prec; g_b0 = g_base; K_hdrw_modality(); }
+#include "K_hdrw_radionuclide_info.c"
+void h_K_hdrw_radionuclide_info(void) { g_fixed = nondet_bool(); g_prec = nondet_int(); g_base = nondet_int(); g_vals = 0; g_f0 = g_fixed; g_p0 = g_prec; g_b0 = g_base; K_hdrw_radionuclide_info(); }
